@@ -9,12 +9,13 @@ ENTRY = dict(
                   "c19_pattern_reset_free", "c19_pattern_pointwise",
                   "c19_no_reset", "c19_pre_pass_pattern", "c19_no_reuseb_sound", "c19_suffix_avoids_sourcesb_sound",
                   "c19_values_unaffected", "c19_repair_values",
+                  "c19_finish_postconditions", "c19_finish_values",
                   "c19_cut_wires_no_reuse",
                   "c19_input_ok_plain", "c19_cut_wires_no_reuse_gen",
                   "c19_separated_no_reuse", "c19_separated_suffix", "c19_separated_no_reset",
                   "c19_facts_move_table", "c19_facts_move_shape", "c19_facts_order"],
         allowed_axioms=[],
-        facts=["c19_move_table", "c19_inner_loop_calls", "c19_dummy_index", "reset_pipeline_order"],
+        facts=["c19_move_table", "c19_stage_order", "c19_pass_names", "c19_dummy_index"],
         harness="c19",
         level_text="Unbounded theorems (all circuits, all qubit counts, all map choices, by induction over instruction lists) about the "
                    "executable model of one subexperiment of generate_cutting_experiments: (1) after the three reset passes (flags, early "
@@ -46,6 +47,24 @@ ENTRY = dict(
                    "(modelling assumption M1); that the placeholder bit is masked out of every observable is C11's c11_dummy, cited, not "
                    "re-proved here.",
         assumptions=[
+            "finish-level statements: c19_finish_postconditions (no reset first/last/doubled on any wire of a returned subexperiment, for "
+            "every valid request on a subcircuit whose resets and placeholders act inside the circuit - re-use and user resets included) "
+            "and c19_finish_values (every classical bit of the returned subexperiment has the Herbrand term it has in the subexperiment "
+            "with no reset removed, except the placeholder bit of an identity group); the latter takes well-formedness of the reference "
+            "circuit as a hypothesis and stops at bit terms: M1, the masking of the placeholder bit (C11) and the reconstruction formula "
+            "(C06) link them to reconstructed values and are not re-proved",
+            "problem-level antecedent for HAND-PLACED Moves through partition_problem: no theorem derives the subcircuit-level no_reuse "
+            "from the problem-level one (c19_separated_* cover marker circuits only); that class is covered by the correspondence streams "
+            "moves_fresh / moves_fresh_labels and the judge",
+            "facts: the order of the three passes among themselves and the place of the clean-up loop are NOT pinned (c19_stage_order only "
+            "demands register < decomposition < repair < measurement suffix < the three passes): every order gives the same list (argued "
+            "from c19_wire_normal_form; an order that changed the output would be caught by the exact list comparison)",
+            "harness: the pre-pass circuit is rebuilt through private helpers of cutting_experiments.py (_append_measurement_register, "
+            "_append_measurement_circuit, _get_bases, _get_mapping_ids_by_partition, _get_bases_by_partition) and the sampling is replayed "
+            "under the same numpy global seed with the z*ngroups+j layout of the experiment list (C05/C09); a rename of a private helper "
+            "makes the contract prepass_circuit_can_be_rebuilt_through_the_private_functions fail (reported, generator does not crash)",
+            "every generated case is judged (contract judge_accepts_clean_case), also when model and implementation agree; the judge "
+            "simulates <= 5 qubits only (histogram *.values_check counts the skipped cases)",
             "Model/ResetFree.v composes the hand-written models of C11 (measurement register/suffix), C14 (decomposition) and C12 (reset "
             "passes); tied to /repo by the C19 correspondence (exact instruction lists of real subexperiments, of the intermediate "
             "decomposed circuit, and of the model's passes applied to the implementation's intermediate circuit) and by the regenerated "
